@@ -195,18 +195,40 @@ def r08_5(ctx):
     from .c06 import r06_6
 
     r06_6(ctx)
-    # compile_sub_routine uses a fresh transformer -> fresh ILOpsHolder -> its own counter starting at 0
+    # compile_sub_routine uses a fresh transformer -> fresh ILOpsHolder -> its own counter starting at 0: the names of a
+    # body and of its callers (and of two bodies) can only differ through a per-routine component of the name
     cs = idx.func("Compiler.compile_sub_routine")
-    fresh = any(isinstance(n, ast.Assign) and isinstance(n.value, ast.Call) and call_name(n.value) == "RZILTransformer" for n in ast.walk(cs.node))
-    init = idx.func("RZILTransformer.__init__")
-    own_holder = any(isinstance(n, ast.Assign) and U(n.targets[0]) == "self.il_ops_holder" and U(n.value) == "ILOpsHolder()" for n in ast.walk(init.node))
     rh = idx.func("RZILTransformer.resolve_hybrid")
-    gens = [U(n.value) for n in ast.walk(rh.node) if isinstance(n, ast.Assign) and isinstance(n.value, ast.JoinedStr) and "h_tmp" in U(n.value)]
-    has_scope = any(("routine" in g or "prefix" in g or "name" in g.replace("tmp_x_name", "")) for g in gens)
-    shared_counter = not (fresh and own_holder)
-    ctx.check("temporary names of a routine body and of its callers cannot coincide", has_scope or shared_counter,
-              "a per-routine component in the name, or one counter shared by caller and callee transformers",
-              f"generator {gens} with a private counter per transformer (compile_sub_routine builds a fresh RZILTransformer/ILOpsHolder): both start at h_tmp0", fn_where(idx, rh))
+    init = idx.func("RZILTransformer.__init__")
+    gen = [n.value for n in ast.walk(rh.node) if isinstance(n, ast.Assign) and isinstance(n.value, ast.JoinedStr) and any("hybrid_op_count" in U(v) for v in n.value.values)]
+    ctx.need(len(gen) == 1, f"temporary name generator not found in resolve_hybrid ({len(gen)} candidates)")
+    parts = gen[0].values
+    scope_attrs = [v.value.attr for v in parts if isinstance(v, ast.FormattedValue) and isinstance(v.value, ast.Attribute) and U(v.value.value) == "self" and "hybrid_op_count" not in U(v)]
+    counter_last = isinstance(parts[-1], ast.FormattedValue) and "hybrid_op_count" in U(parts[-1])
+    tvars = [U(n.targets[0]) for n in ast.walk(cs.node) if isinstance(n, ast.Assign) and isinstance(n.value, ast.Call) and call_name(n.value) == "RZILTransformer"]
+    name_param = cs.node.args.args[1].arg
+    scoped = None
+    for n in ast.walk(cs.node):
+        if isinstance(n, ast.Assign) and isinstance(n.targets[0], ast.Attribute) and U(n.targets[0].value) in tvars and n.targets[0].attr in scope_attrs:
+            scoped = n
+    default = next((n.value.value for n in ast.walk(init.node) if isinstance(n, ast.Assign) and isinstance(n.targets[0], ast.Attribute) and n.targets[0].attr in scope_attrs
+                    and isinstance(n.value, ast.Constant) and isinstance(n.value.value, str)), None)
+    ok = False
+    obs = f"generator {U(gen[0])}: no per-transformer component that compile_sub_routine sets (a private counter per transformer: body and caller both start at <prefix>0)"
+    if scoped is not None and counter_last and default is not None and isinstance(scoped.value, ast.JoinedStr):
+        v = scoped.value.values
+        has_name = any(isinstance(x, ast.FormattedValue) and U(x.value) == name_param for x in v)
+        lead = v[0].value if isinstance(v[0], ast.Constant) else ""
+        tail = v[-1].value if isinstance(v[-1], ast.Constant) else ""
+        before_transform = scoped.lineno < min([c.lineno for c in ast.walk(cs.node) if isinstance(c, ast.Call) and isinstance(c.func, ast.Attribute) and c.func.attr == "transform"] or [0])
+        # default names: <default><digits>; routine names: <lead><routine><tail><digits>.  They cannot coincide when the routine
+        # prefix continues the default one with a non-digit, and two routines cannot coincide when <tail> ends with a non-digit
+        # that routine names may contain only before it (the counter is digits only, so the last <tail> splits the name uniquely)
+        sep_ok = lead.startswith(default) and len(lead) > len(default) and not lead[len(default)].isdigit() and tail != "" and not tail[-1].isdigit()
+        ok = has_name and sep_ok and before_transform
+        obs = f"default prefix {default!r}, routine prefix {U(scoped.value)} set {'before' if before_transform else 'AFTER'} the body is transformed"
+    ctx.check("temporary names of a routine body and of its callers cannot coincide", ok,
+              "a per-routine component in the name (set before the body is transformed, separated from the counter and from the default prefix by a non-digit)", obs, fn_where(idx, rh))
 
 
 @rule("R08.6", "C08", "resource lint: locals of the bundled routines are pairwise disjoint (flat IL namespace); bodies that use operands take the bundle; prologue rule for pkt/hi", min_instances=12)
